@@ -37,8 +37,10 @@ class AgentCore:
         self.rec, self.cfgref, self.sid, self.ctx, self.responder = rec2, cfgref, sid, ctx, responder
         self.engines = set()
         self.requests = []
+        self.closed = False
+        self.gap = 0.0          # seconds between the datagrams of one answer (0: back to back, the client may read them in one go)
 
-    def handle(self, data, send):
+    def handle(self, data, send, later=None):
         cfg = self.cfgref[0]
         c = self.ctx
         interp = rawdrv.v3_interp(cfg, data, self.engines) if cfg.ver == "v3" else []
@@ -47,7 +49,7 @@ class AgentCore:
                            oversize=False, walk=bool(c.walk)))
         req = ag.Request(cfg, data)
         self.requests.append(req)
-        for d, extra in self.responder(req):
+        for n, (d, extra) in enumerate(self.responder(req)):
             if cfg.ver == "v3":
                 try:
                     m = rc.parse_msg(d)
@@ -56,8 +58,18 @@ class AgentCore:
                 except Exception:
                     pass
             i2 = list(extra) + (rawdrv.v3_interp(cfg, d, self.engines) if cfg.ver == "v3" else [])
-            self.rec.emit(dict(ev="Inject", sid=self.sid, dgram=list(d), interp=i2))
-            send(d)
+
+            def emit_and_send(d=d, i2=i2):
+                if self.closed:
+                    return
+                self.rec.emit(dict(ev="Inject", sid=self.sid, dgram=list(d), interp=i2))      # recorded BEFORE it can be received
+                send(d)
+            if self.gap and n:
+                if later is not None:
+                    later(n * self.gap, emit_and_send)       # asyncio agent: never block the loop the client runs in
+                    continue
+                time.sleep(self.gap)
+            emit_and_send()
 
 
 class SockProxy:
@@ -265,6 +277,7 @@ class SyncApi:
 
     def close(self):
         self.stop = True
+        self.core.closed = True
         try:
             self.sock.sendto(b"", self.sock.getsockname())      # wake the agent thread
         except OSError:
@@ -296,7 +309,7 @@ class AsyncApi:
                 s.transport = transport
 
             def datagram_received(s, data, addr):
-                core.handle(data, lambda d: s.transport.sendto(d, addr))
+                core.handle(data, lambda d: s.transport.sendto(d, addr), later=loop.call_later)
         self.transport, self.proto = await loop.create_datagram_endpoint(Proto, local_addr=("127.0.0.1", 0))
         port = self.transport.get_extra_info("sockname")[1]
         e = dict(ev="Open", sid=sid, maxbuf=4080, apiuser=text(cfg.user), apiauth=cfg.auth, apipriv=cfg.priv)
@@ -312,6 +325,7 @@ class AsyncApi:
         return self
 
     def close(self):
+        self.core.closed = True
         self.transport.close()
         self.rec2.emit(dict(ev="Close", sid=self.sid))
 
